@@ -60,6 +60,9 @@ func buildParallelCases(e *Env, perType int, useRef bool) []pcase {
 			}
 			g := &gen.Gen{S: e.S, C: e.C, R: gen.NewRng(e.Seed, "C20", t.QName, ci), O: o}
 			v := g.Value(t)
+			if ci == n-1 && !useRef {
+				v = e.C.New[t.QName]() // the zero value: every nested part and body absent (encoders materialise them)
+			}
 			var w []byte
 			var want any
 			if useRef {
@@ -229,6 +232,15 @@ func runParallel(e *Env, cs []pcase, G, ops int, label string) (evs [][]pevent, 
 				}
 				// decode private bytes into a private object (every other time one handed out by the generated constructor)
 				d := e.NewVia(c.t.QName, k)
+				if k%8 == 3 {
+					// ... or the object that was just encoded, reused as the receiver for ANOTHER message of its type
+					// (whatever the encoder attached to it - materialised parts, filled-in bodies - is decoded into)
+					if idx := byType[reflect.TypeOf(c.v)]; len(idx) > 1 {
+						ci = idx[rng.Intn(len(idx))]
+						c = &cs[ci]
+					}
+					d = m
+				}
 				in := bytes.NewBuffer(append([]byte(nil), c.bytes...))
 				t0 = int64(time.Since(start))
 				err, p = LibDecode(d, in)
